@@ -255,7 +255,7 @@ class ProgGen:
         return fn, sig
 
 
-def trace_program(fa, fn, sig, target, name, rewrite, alt=False):
+def trace_program(fa, fn, sig, target, name, rewrite, alt=False, algebraic=True):
     ns = {}
     exec("def %s(ctx, %s):\n    return _fn(ctx, %s)\n" % (name, ", ".join("abc"[: len(sig)]), ", ".join("abc"[: len(sig)])), dict(_fn=fn), ns)
     ctx = fa.Context(paths=[fa.algorithms])
@@ -263,7 +263,8 @@ def trace_program(fa, fn, sig, target, name, rewrite, alt=False):
         warnings.simplefilter("ignore")
         with contextlib.redirect_stdout(io.StringIO()):
             g = ctx.trace(ns[name], *[s if str(s).startswith(":") else f":{s}" for s in sig])
-            return g.rewrite(target, rewrite)
+            # a target accepts graphs with and without the algebraic rewriter applied after its own expansion pass
+            return g.rewrite(target, rewrite) if algebraic else g.rewrite(target)
 
 
 def unit_programs(target, float_t, complex_t, int_t):
@@ -330,14 +331,18 @@ def fa_expr(ctx, kind, *ops):
 
 
 def scalar_inputs(rnd, sig, n, pytypes=False):
-    """n argument tuples of hostile scalars for a signature of type names"""
+    """n argument tuples of hostile scalars for a signature of type names; a quarter of the tuples repeat one value in every argument
+    (comparisons and min/max differ only at equality)"""
     out = []
-    for _ in range(n):
+    for i_ in range(n):
         args = []
+        same = rnd.choice(HOSTILE[:-1]) * rnd.choice([1, -1]) if (i_ % 4 == 0 and len(sig) > 1) else None
         for t in sig:
             t = str(t).lstrip(":")
 
             def one():
+                if same is not None:
+                    return same
                 v = rnd.choice(HOSTILE) * rnd.choice([1, -1]) if rnd.random() < 0.7 else struct.unpack("<d", struct.pack("<Q", rnd.getrandbits(64)))[0]
                 return v
 
@@ -377,6 +382,8 @@ def collect_programs(fa, tname, rnd, ngen):
     ft, ct, it = {"python": ("float", "complex", "int"), "numpy": ("float32", "complex64", "int64"), "cpp": ("float32", "complex64", "int64")}[tname]
     for label, fn, sig in unit_programs(target, ft, ct, it):
         progs.append((f"unit:{label}", ("fn", fn, sig)))
+        if not label.startswith("const-undeclared:"):  # a name the target does not declare is only accepted once the rewriter has folded it
+            progs.append((f"unit-norewrite:{label}", ("fn-norewrite", fn, sig)))  # the rewriter canonicalises e.g. select(a >= b, ..): print the raw kind too
         if tname != "python" and not label.startswith("kind:upcast") and not label.startswith("kind:downcast"):
             sig64 = [{"float32": "float64", "complex64": "complex128"}.get(s, s) for s in sig]
             progs.append((f"unit64:{label}", ("fn", fn, sig64)))
@@ -396,8 +403,68 @@ def collect_programs(fa, tname, rnd, ngen):
         ("int-and-float-literals", lambda ctx, a: (a + 1) * ctx.constant(1, a) + ctx.constant(1.0, a) + ctx.constant(True, a) * a if False else (a + 1) * ctx.constant(1, a) + ctx.constant(1.0, a), [ft]),
         ("shared-subexpression", lambda ctx, a, b: (lambda t: t * t + t / (t + ctx.constant(1, a)))(a * b + a), [ft, ft]),
     ]
+    for cmpk in ("lt", "le", "gt", "ge", "eq", "ne"):
+        directed.append((f"cmp-inside-logical:{cmpk}", (lambda ctx, a, b, cmpk=cmpk: ctx.select(ctx.logical_and(getattr(ctx, cmpk)(a, b), getattr(ctx, cmpk)(b + a, a + a)), a - b, b / a)), [ft, ft]))
+        directed.append((f"cmp-referenced-twice:{cmpk}", (lambda ctx, a, b, cmpk=cmpk: (lambda c: ctx.select(c, a, b) + ctx.select(ctx.logical_not(c), a * a, b * b))(getattr(ctx, cmpk)(a, b))), [ft, ft]))
+    directed += [
+        ("named-constant-two-types", lambda ctx, a, b: a * ctx.constant("largest", a) + b * ctx.constant("largest", b) + a * ctx.constant("smallest", a) + b * ctx.constant("smallest", b), [ft, ft64]),
+        ("literal-two-types", lambda ctx, a, b: (a * ctx.constant(0.1, a) + ctx.constant(0.1, a)) + (b * ctx.constant(0.1, b) + ctx.constant(0.1, b)), [ft, ft64]),
+        ("negative-and-long-literals", lambda ctx, a: a * ctx.constant(-1.2345678901234567, a) + ctx.constant(-7, a) / (a + ctx.constant(1e-300 if ft != "float32" else 1e-30, a)) + ctx.constant(123456789.123456789, a), [ft]),
+    ]
+    # literal constants that are not finite, given as Python and as NumPy scalars
+    directed += [
+        ("literal-inf", lambda ctx, a: a + ctx.constant(math.inf, a), [ft]),
+        ("literal-neginf", lambda ctx, a: a * ctx.constant(-math.inf, a) - a, [ft]),
+        ("literal-nan", lambda ctx, a: a + ctx.constant(math.nan, a), [ft]),
+        ("literal-numpy-inf", lambda ctx, a: a - ctx.constant(numpy.float64(math.inf), a) / a, [ft]),
+        ("literal-numpy-neginf", lambda ctx, a: a - ctx.constant(numpy.float32(-math.inf), a), [ft]),
+    ]
+    # constants whose bit patterns contain bytes below 0x10 (identifier construction), all used twice so that each gets a variable
+    def near_identifiers(ctx, a):
+        vals = [struct.unpack("<f", struct.pack("<I", b))[0] for b in (0x3F011000, 0x3F110000, 0x3F100100, 0x3F001100, 0x3F101000)]
+        cs = [ctx.constant(v, a) for v in vals]
+        ts = [a * c for c in cs]
+        r = ts[0] * ts[0]
+        for t in ts[1:]:
+            r = r + t * t
+        return r
+    def near_identifiers64(ctx, a, b):
+        vals = [struct.unpack("<d", struct.pack("<Q", q))[0] for q in (0x3FE0110000000000, 0x3FE1010000000000, 0x3FE0011000000000, 0x3FE1100000000000)]
+        ts = [b * ctx.constant(v, b) for v in vals]
+        r = ts[0] * ts[0]
+        for t in ts[1:]:
+            r = r + t * t
+        return r + a * a
+    directed += [("near-identical-identifiers", near_identifiers, [ft]), ("near-identical-identifiers-64", near_identifiers64, [ft, ft64])]
+    # user-chosen reference names that repeat, at top level and inside called functions
+    def inner(ctx, u):
+        p_ = (u * u).reference("t")
+        q_ = (p_ + u).reference("t")
+        r_ = (p_ - q_ * u).reference("t")
+        return q_ * p_ * q_ * r_ * r_
+    def refnames_call(ctx, a, b):
+        t = (a + b).reference("t")
+        w = ctx.call(inner, (t,))
+        w2 = ctx.call(inner, (a - b,))
+        return ctx(t * w * t * w + w2 * w2)
+    def refnames_top(ctx, a, b):
+        t1 = (a + b).reference("t")
+        t2 = (a - b).reference("t")
+        t3 = (a * b).reference("t")
+        t4 = (a / b).reference("t")
+        return t1 * t2 * t3 * t4 + t1 * t2 * t3 * t4
+    directed += [("repeated-reference-names-in-call", refnames_call, [ft, ft]), ("repeated-reference-names", refnames_top, [ft, ft])]
     if ct is not None:
         directed += [
+            ("complex-constant-inf-part", lambda ctx, z: z + ctx.constant(complex(math.inf, -0.0), z), [ct]),
+            ("complex-constant-neginf-nan-parts", lambda ctx, z: z + ctx.constant(complex(-math.inf, 3.0), z) + ctx.constant(complex(0.0, -math.inf), z), [ct]),
+        ]
+        for cname in target.constant_to_target:
+            directed.append((f"complex-typed-named-constant:{cname}", (lambda ctx, z, cname=cname: z + ctx.constant(cname, z)), [ct]))
+        directed += [
+            ("complex-constant-signed-zero-parts", lambda ctx, z: z + ctx.constant(complex(-4.0, -0.0), z), [ct]),
+            ("complex-constant-negative-zero-real", lambda ctx, z: z + ctx.constant(complex(-0.0, 2.0), z), [ct]),
+            ("complex-constant-negative-parts", lambda ctx, z: z * ctx.constant(complex(-1.5, -2.25), z) if tname == "numpy" else z + ctx.constant(complex(-1.5, -2.25), z), [ct]),
             ("complex-infinity-constant", lambda ctx, z: ctx.constant("posinf", z) if False else ctx.real(z * ctx.constant("posinf", ctx.real(z))), [ct]),
             ("complex-constant", lambda ctx, z: z * ctx.constant(2.0, z) + ctx.constant(1.5, z), [ct]),
             ("complex-from-mixed-parts", lambda ctx, a, b: ctx.complex(a, a) if tname == "numpy" else ctx.complex(b, a), [ft, ft64]),
@@ -408,6 +475,7 @@ def collect_programs(fa, tname, rnd, ngen):
         ]
     for label, fn, sig in directed:
         progs.append((f"directed:{label}", ("fn", fn, sig)))
+        progs.append((f"directed-norewrite:{label}", ("fn-norewrite", fn, sig)))
     kinds = [k for k, v in target.kind_to_target.items() if v is not NotImplemented] + ["square", "hypot"]
     consts = [0, 1, 2, -1, 0.5, 1.5, 3, 0.1, 2.0, 1e-3, 1e10]
     named = [k for k in ("pi", "largest", "smallest", "posinf", "neginf") if k in target.constant_to_target]
@@ -432,8 +500,8 @@ def build_graph(fa, target, spec, name):
         g.props.update(name=name)
         # the signature actually traced (trace_arguments may list more entries than the function has parameters)
         return g, [str(p.operands[1]) for p in g.operands[1:-1] if p.kind == "symbol"]
-    _, fn, sig = spec
-    g = trace_program(fa, fn, sig, target, name, rewrite)
+    fn, sig = spec[1], spec[2]
+    g = trace_program(fa, fn, sig, target, name, rewrite, algebraic=(spec[0] != "fn-norewrite"))
     return g, list(sig)
 
 
@@ -453,7 +521,7 @@ def run_exec_target(rec, fa, tname, rnd, ngen, ninputs):
             rec.count(f"refused:{tname}:trace")
             continue
         except (AssertionError, TypeError, KeyError, AttributeError, ValueError, RuntimeError) as e:
-            if label.startswith(("unit", "gen", "directed")):
+            if label.startswith(("unit", "gen", "directed")):  # incl. the -norewrite variants
                 rec.count(f"generator-refused:{tname}:{type(e).__name__}")
                 continue
             rec.violation(f"{tname}:trace-raises", dict(program=label, exc=f"{type(e).__name__}: {e}"[:300]))
@@ -548,6 +616,101 @@ def run_exec_target(rec, fa, tname, rnd, ngen, ninputs):
             rec.sample(dict(target=tname, program=label, signature=[str(s) for s in sig], source_head=src[:300] if 'src' in dir() else None))
 
 
+def run_list_arguments(rec, fa, rnd, ninputs):
+    """NumPy target: functions with list-typed arguments / results, both argument-casting modes, debug 0 and 1.
+    The reference is the same formula on NumPy scalars (the programs use only + - * on float32/float64)."""
+    from functional_algorithms import rewrite
+
+    target = fa.targets.numpy
+    f32, f64 = numpy.float32, numpy.float64
+
+    def l1(ctx, x: list[f32, f32], y: f32):
+        a = x[0] + y
+        b = x[1] * a
+        return [a * b * x[0], b - y]
+
+    def l2(ctx, x: list[f64, f64, f64], y: list[f64, f64]):
+        s = x[0] * y[0] + x[1] * y[1]
+        t = (s - x[2]) * (s + x[2])
+        return ctx.Expr("list", (t * s, t - s, x[2] * y[1])) if hasattr(ctx, "Expr") else [t * s, t - s, x[2] * y[1]]
+
+    def l3(ctx, x: list[f32, f32], y: f32):
+        return x[0] * x[0] - y * x[1] + x[0]
+
+    refs = {
+        "l1": (lambda x, y: (lambda a: (lambda b: [a * b * x[0], b - y])(x[1] * a))(x[0] + y), [("list", f32, 2), ("scalar", f32)]),
+        "l2": (lambda x, y: (lambda s: (lambda t: [t * s, t - s, x[2] * y[1]])((s - x[2]) * (s + x[2])))(x[0] * y[0] + x[1] * y[1]), [("list", f64, 3), ("list", f64, 2)]),
+        "l3": (lambda x, y: x[0] * x[0] - y * x[1] + x[0], [("list", f32, 2), ("scalar", f32)]),
+    }
+    for fn in (l1, l2, l3):
+        ref, shape = refs[fn.__name__]
+        for algebraic in (True, False):
+            ctx = fa.Context(paths=[fa.algorithms])
+            try:
+                with warnings.catch_warnings():
+                    warnings.simplefilter("ignore")
+                    with contextlib.redirect_stdout(io.StringIO()):
+                        g = ctx.trace(fn)
+                        g = g.rewrite(target, rewrite) if algebraic else g.rewrite(target)
+            except Exception as e:
+                rec.count(f"generator-refused:numpy:list:{type(e).__name__}")
+                continue
+            for dbg in (0, 1):
+                for cast in (None, True, False):
+                    label = f"list-arguments:{fn.__name__}:{'rewritten' if algebraic else 'norewrite'}:debug={dbg}:cast={cast}"
+                    rec.count("programs")
+                    rec.count("programs:numpy")
+                    rec.count("programs:numpy:list-arguments")
+                    try:
+                        with warnings.catch_warnings():
+                            warnings.simplefilter("ignore")
+                            src = g.tostring(target, debug=dbg) if cast is None else g.tostring(target, debug=dbg, force_cast_arguments=cast)
+                    except Exception as e:
+                        rec.violation(f"numpy:emit-raises:{type(e).__name__}", dict(program=label, exc=f"{type(e).__name__}: {e}"[:300]))
+                        continue
+                    env = dict(numpy=numpy, math=math, sys=__import__("sys"), warnings=warnings, make_complex=fa.utils.make_complex)
+                    try:
+                        exec(compile(src, f"<numpy:{label}>", "exec"), env)
+                        f = env[fn.__name__]
+                    except Exception as e:
+                        rec.violation(f"numpy:does-not-load:{type(e).__name__}", dict(program=label, exc=f"{type(e).__name__}: {e}"[:300], source=src[-600:]))
+                        continue
+                    try:
+                        probs = single_assignment_python(src, fn.__name__)
+                    except SyntaxError:
+                        probs = []
+                    probs = [p_ for p_ in probs if not p_.startswith(("x ", "y "))]
+                    if probs:
+                        rec.violation("numpy:single-assignment", dict(program=label, problems=probs[:5], source=src[-800:]))
+                    rec.cls("numpy", "list-arguments", hash(src) % 100000)
+                    for _ in range(ninputs):
+                        args = []
+                        with numpy.errstate(all="ignore"):
+                          for sh in shape:
+                            draw = lambda t: t(rnd.choice(HOSTILE) * rnd.choice([1, -1]) if rnd.random() < 0.5 else rnd.uniform(-4, 4))
+                            args.append([draw(sh[1]) for _ in range(sh[2])] if sh[0] == "list" else draw(sh[1]))
+                        rec.count("executions:numpy")
+                        rec.count("evaluations")
+                        with warnings.catch_warnings():
+                            warnings.simplefilter("ignore")
+                            with numpy.errstate(all="ignore"):
+                                want = ref(*args)
+                                try:
+                                    with contextlib.redirect_stdout(io.StringIO()):
+                                        got = f(*args)
+                                except AssertionError:
+                                    rec.count("numpy:debug-assertion (C08)")
+                                    break
+                                except Exception as e:
+                                    rec.violation(f"numpy:execution-raises:{type(e).__name__}", dict(program=label, args=repr(args)[:300], exc=f"{type(e).__name__}: {e}"[:300], source=src[-900:]))
+                                    break
+                        rec.count("disagreements_checked")
+                        gl, wl = (list(got), list(want)) if isinstance(want, list) else ([got], [want])
+                        if len(gl) != len(wl) or not all(same_value(a_, b_) for a_, b_ in zip(gl, wl)):
+                            rec.violation("numpy:value-differs", dict(program=label, args=repr(args)[:300], got=repr(got)[:200], reference=repr(want)[:200], source=src[-900:]))
+                            break
+
+
 def minmax_ambiguous(g, args, tname):
     """max/min legitimately differ between libraries when operands compare equal (+-0) or one is NaN: accept if the graph has such a node on this input"""
     from ..graph import walk
@@ -600,7 +763,7 @@ def run_cpp(rec, fa, rnd, ngen, ninputs, sanitize):
             rec.count("refused:cpp:trace")
             continue
         except (AssertionError, TypeError, KeyError, AttributeError, ValueError, RuntimeError) as e:
-            if label.startswith(("unit", "gen", "directed")):
+            if label.startswith(("unit", "gen", "directed")):  # incl. the -norewrite variants
                 rec.count(f"generator-refused:cpp:{type(e).__name__}")
                 continue
             rec.violation("cpp:trace-raises", dict(program=label, exc=f"{type(e).__name__}: {e}"[:300]))
@@ -751,6 +914,8 @@ def task_target(params, rec):
         run_cpp(rec, fa, rnd, params["ngen"], params["ninputs"], params.get("sanitize", False))
     else:
         run_exec_target(rec, fa, params["target"], rnd, params["ngen"], params["ninputs"])
+        if params["target"] == "numpy":
+            run_list_arguments(rec, fa, rnd, params["ninputs"])
 
 
 TASKS = {"target": task_target}
